@@ -389,6 +389,21 @@ def gen_pool(r, kinds=("lin", "quad", "nl"), layout=None, int_frac=0.0, nobj=5, 
     return sp, meta
 
 
+SLOW_METHODS = ("CG", "BFGS", "Nelder-Mead", "Powell", "TNC", "Newton-CG", "COBYLA")
+
+
+def cap_iterations(r, a):
+    """Derivative-free / unconstrained methods can spend 1e5 evaluations on an ill-posed model;
+    the public maxiter argument bounds the cost (identically for the run and its reference)."""
+    if a.get("method") in SLOW_METHODS and "maxiter" not in a:
+        a["maxiter"] = r.choice([40, 80, 150])
+    elif a.get("method") in ("trust-constr", "auto") and "maxiter" not in a and r.random() < 0.85:
+        # trust-constr (also what auto picks for nonlinear models) runs 1000 costly iterations on an
+        # infeasible or unbounded model; most runs bound it, some keep the default
+        a["maxiter"] = r.choice([120, 250])
+    return a
+
+
 def gen_knobs(r, p_default=0.5):
     from .world import DEFAULT_KNOBS
 
@@ -543,13 +558,14 @@ def gen_c13(r, int_frac=0.0, strict_frac=0.0, maxlen=None):
                 a["tol"] = r.choice([1e-4, 1e-8])
             if r.random() < 0.15:
                 a["x0_prev"] = True
+            cap_iterations(r, a)
             if r.random() < 0.05:
                 # a transient failure while the solve builds its caches (k-th compile call raises)
                 a["fault"] = {"site": "compile", "k": r.choice([1, 2, 3, 4, 5, 7]), "exc": r.choice(["MemoryError", "RecursionError", "ValueError", "KeyboardInterrupt"])}
             ops.append(["solve", mid, a])
     for mid in mids:
         if have_obj[mid]:
-            ops.append(["solve", mid, {"method": r.choice(C13_METHODS)}])
+            ops.append(["solve", mid, cap_iterations(r, {"method": r.choice(C13_METHODS)})])
     return {"knobs": knobs, "ops": ops}
 
 
@@ -726,7 +742,7 @@ def gen_c12(r):
         ops.append(_retarget(gen_handle(r, sp, "t0", enames), 1))
         ops.append(["call", 1, "t0", gen_point(r, sp)])
         ops.append(["minimize", 1, r.choice(onames)])
-        ops.append(["solve", 1, {"method": r.choice(C12_METHODS)}])
+        ops.append(["solve", 1, cap_iterations(r, {"method": r.choice(C12_METHODS)})])
         ops.append(_retarget(gen_param_op(r, sp), 1))
     obj = r.choice(onames)
     ops.append([r.choice(["minimize", "minimize", "maximize"]) if obj != "o0" else "minimize", 0, obj])
@@ -754,6 +770,7 @@ def gen_c12(r):
                 a["use_hessian"] = False
             if r.random() < 0.25:
                 a["x0_prev"] = True  # rolling-horizon pattern: warm start at the previous optimum
+            cap_iterations(r, a)
             ops.append(["solve", 0, a])
         elif k < 0.75 and hids:
             h = r.choice(hids)
@@ -779,7 +796,7 @@ def gen_c12(r):
     ops.append(gen_param_op(r, sp))
     for h in hids[:3]:
         ops.append(["call", 0, h, gen_point(r, sp)])
-    ops.append(["solve", 0, {"method": r.choice(C12_METHODS)}])
+    ops.append(["solve", 0, cap_iterations(r, {"method": r.choice(C12_METHODS)})])
     return {"knobs": knobs, "ops": ops}
 
 
@@ -883,7 +900,7 @@ def gen_observations(r, sp, mid, hids, nmax=4, methods=C14_METHODS):
                 a["tol"] = r.choice([1e-3, 1e-9])
             if r.random() < 0.1:
                 a["use_hessian"] = False
-            ops.append(["solve", mid, a])
+            ops.append(["solve", mid, cap_iterations(r, a)])
     return ops
 
 
@@ -1336,6 +1353,7 @@ def gen_c06(r, tier="quick", c07=False):
         if k < 0.35:
             if r.random() < 0.3 and ent != "lp":
                 a["maxiter"] = r.choice([1, 2, 3, 10])
+            cap_iterations(r, a)
         elif k < 0.5:
             a["peers"] = [{"mode": "truncate", "entry": 0, "k": r.choice([1, 1, 2, 3, 5])}]
         else:
@@ -1373,7 +1391,7 @@ def gen_c06(r, tier="quick", c07=False):
                 else:
                     ops.append(["set_ub", 0, e, (at[0] if at[0] is not None else -4.0) + r.choice([0.5, 1.0, 2.0])])
     if ops[-1][0] != "solve":
-        ops.append(["solve", 0, {"method": r.choice(C06_METHODS)}])
+        ops.append(["solve", 0, cap_iterations(r, {"method": r.choice(C06_METHODS)})])
     return {"knobs": knobs, "ops": ops}
 
 
@@ -1417,8 +1435,9 @@ def gen_c20_scenario(r):
         a["use_hessian"] = False
     if r.random() < 0.3 and method not in LP_METHODS:
         a["maxiter"] = r.choice([2, 5, 20])
+    cap_iterations(r, a)
     target = ["solve", 0, a]
-    suffix = [["solve", 0, {"method": method}], ["solve", 0, {"method": r.choice(HESS_METHODS + ["auto", "SLSQP"])}]]
+    suffix = [["solve", 0, cap_iterations(r, {"method": method})], ["solve", 0, cap_iterations(r, {"method": r.choice(HESS_METHODS + ["auto", "SLSQP"])})]]
     if r.random() < 0.3:
         suffix[0][2]["x0_prev"] = True
     if r.random() < 0.3:
@@ -1523,7 +1542,7 @@ def gen_redeclare(r, int_frac=0.0, strict_frac=0.0):
     ops = [["new_model", 0, sp], [r.choice(["minimize", "maximize"]), 0, r.choice(onames)]]
 
     def solve():
-        a = {"method": r.choice(C13_METHODS)}
+        a = cap_iterations(r, {"method": r.choice(C13_METHODS)})
         if r.random() < strict_frac:
             a["strict"] = True
         return ["solve", 0, a]
@@ -1562,7 +1581,7 @@ def gen_c18_many(r):
     for c in r.sample(sorted(sp["cons"]), r.choice([0, 1, 2])):
         ops.append(["subject_to", 0, c])
     for _ in range(r.randint(2, 4)):
-        ops.append(["solve", 0, {"method": r.choice(C13_METHODS), "strict": r.random() < 0.6}])
+        ops.append(["solve", 0, cap_iterations(r, {"method": r.choice(C13_METHODS), "strict": r.random() < 0.6})])
     return {"knobs": dict(DEFAULT_KNOBS), "ops": ops}
 
 
